@@ -447,7 +447,7 @@ def register(reg):
     @reg.contract
     class RequestInit(Contract):
         key = REQUEST + ".__init__"
-        props = ("C03", "C19")
+        props = ("C03", "C19", "C10")
         suspends = False
         params = {"method": "bytes", "url": "ref:" + URL, "headers": "seq:hdr", "content": "val", "extensions": "val"}
         variants = [("plain", {}), ]
@@ -467,7 +467,7 @@ def register(reg):
             return [
                 ("method_stored", ("C03",), F(c, s, "Request.method") == c.args["method"].t),
                 ("headers_stored_in_order", ("C03", "C19"), F(c, s, "Request.headers") == c.args["headers"].t),
-                ("scheme_host_port_kept", ("C03", "C19"), z3.And(
+                ("scheme_host_port_kept", ("C03", "C19", "C10"), z3.And(
                     F(c, url1, "URL.scheme") == F(c, url0, "URL.scheme"), F(c, url1, "URL.host") == F(c, url0, "URL.host"),
                     c.eng.z_bool(c.eng.eq(c.st, c.new(url1, "URL.port"), c.new(url0, "URL.port"))))),
                 ("target_extension_overrides_target", ("C03",), F(c, url1, "URL.target") == z3.If(has_target, tgt, F(c, url0, "URL.target"))),
